@@ -97,6 +97,10 @@ class Types:
             return [("leaf",)]
         if g == "EcPoint":
             return [("leaf",)]
+        if g == "Box":
+            return [("box", s) for s in self.shapes(self.targ(tid, 0))]
+        if g == "Nullable":
+            return [("null",)] + [("box", s) for s in self.shapes(self.targ(tid, 0))]
         raise Unsupported(f"input of type {tid} ({g})")
 
     # ------------------------------------------------------------------ symbolic inputs
@@ -164,6 +168,18 @@ class Types:
             cells = [sels[i]] + pad + c
             return cells, ("enum", i, sels[i], {i: v}, sels), ("seq", [("felt", sels[i])] +
                                                           [("felt", x) for x in pad] + [sp])
+        if g in ("Box", "Nullable"):
+            # a pointer to a fresh segment holding the boxed value; SierraCasmRunner cannot pass
+            # pointers as arguments, so witnesses of such functions are not replayable
+            if shape[0] == "null":
+                return [0], ("null",), ("unreplayable",)
+            et = self.targ(tid, 0)
+            c, v, sp = self.build(eng, p, et, shape[1], name + "_b")
+            p.nseg += 1
+            seg = f"in{p.nseg}"
+            for k, x in enumerate(c):
+                p.mem[(seg, k)] = x
+            return [Ptr(seg, 0)], ("box", v), ("unreplayable",)
         if g == "Array":
             et = self.targ(tid, 0)
             p.nseg += 1
@@ -183,6 +199,12 @@ class Types:
     # ------------------------------------------------------------------ decoding
     def decode(self, eng, p, tid, cells):
         g = self.gid(tid)
+        if "Guarantee" in g:
+            # Guarantee types (BoundedIntGuarantee, U96Guarantee, ...) hold hint outputs that have
+            # deliberately NOT been validated yet; the type is linear and must be consumed by the
+            # matching *_guarantee_verify libfunc, which is where the value gets pinned. They are
+            # therefore not part of the observable result of the function that creates them.
+            return ("guarantee",)
         if any(c is None for c in cells):
             return ("undef",)
         rng = self.int_range(tid)
@@ -275,6 +297,8 @@ def _assume(e):
 # ---------------------------------------------------------------------- equality of values
 def val_eq(a, b):
     """z3 Bool (or python bool): the two structured values are observably equal."""
+    if a[0] == "guarantee" or b[0] == "guarantee":
+        return a[0] == b[0]
     if a[0] == "undef" or b[0] == "undef":
         return a[0] == b[0]
     if a[0] != b[0]:
